@@ -212,6 +212,10 @@ func notifyProgramsK(c *RunCtx, nq, nt int, distOnly bool) {
 				cfg.WK = WPlain
 				cfg.QK = Pick(r, QPers, QPersPrio, QDist, QDistPrio)
 			}
+			if (cfg.Mode == "resume" || cfg.Mode == "restart") && (v/len(modes))%2 == 0 {
+				// nothing is pending when the call starts: the racing submissions are all there is to wake up for
+				cfg.Pre = 0
+			}
 			p.Explore(func(pl Plan) *Result { return epNotify(c, cfg) },
 				ExploreOpts{Base: 4, Noise: c.Q(20, 100), K: c.Q(3, 6), Funcs: anchoredOr(c, notifyFuncs), Pairs: c.Q(20, 120), MaxCases: c.Q(150, 2500)})
 		})
